@@ -4,7 +4,7 @@ from ._core_common import *  # noqa
 PROP = "C03"
 SCHEDULERS = ("eager", "rr")
 OPTS = dict(multi=True, mgroup=True, p_single_group=0.3, alias=True, combiner=True, fsm=True, nested_methods=True, p_fresh=0.96)
-BOUNDS = {"quick": "6 designs with validate_arguments behind a condition() branch (outer called plainly / under m.If / with enable_call, blocking / non-blocking) + fixed relation family (61 designs: cross-module add_conflict in same-position alternatives of If/Switch/FSM, prioritised method conflicts lifted over an exclusive caller pair, bodies with two ready-dependency sources) + exhaustive small family (2 transactions x call through {direct, alias, nonexclusive method, exclusive method, enable_call} in If/Else alternatives: 93 designs, plus 42 designs with two non-exclusive call sites of one exclusive method through the same / different Method objects) + 40 batches x 12 random designs (<=3 transactions + nested, <=5 methods, If/Elif/Else, sibling If, Switch, FSM, enable_call, aliases, combiners, nested bodies), "
+BOUNDS = {"quick": "10 designs with validate_arguments behind a condition() branch (outer called plainly / under m.If / with enable_call / conditionally by a helper method, blocking / non-blocking) + fixed relation family (61 designs: cross-module add_conflict in same-position alternatives of If/Switch/FSM, prioritised method conflicts lifted over an exclusive caller pair, bodies with two ready-dependency sources) + exhaustive small family (2 transactions x call through {direct, alias, nonexclusive method, exclusive method, enable_call} in If/Else alternatives: 93 designs, plus 42 designs with two non-exclusive call sites of one exclusive method through the same / different Method objects) + 40 batches x 12 random designs (<=3 transactions + nested, <=5 methods, If/Elif/Else, sibling If, Switch, FSM, enable_call, aliases, combiners, nested bodies), "
                    "both schedulers where applicable; per design all inputs and all register states",
           "thorough": "1600 batches x 25 random designs, VERIF_SEED-seeded"}
 OUTSIDE = OUTSIDE_COMMON
@@ -16,7 +16,7 @@ def configs(tier, seed):
     # "a nested body / its callees run only with the enclosing body" is this property as well
     from . import c12
 
-    condval = [dict(condval=how, nonblocking=nb) for how in ("plain", "if", "enable") for nb in (False, True)]
+    condval = [dict(condval=how, nonblocking=nb) for how in ("plain", "if", "enable", "via_if", "via_enable") for nb in (False, True)]
     return condval + systematic_configs(SCHEDULERS, family="relations") + systematic_configs(SCHEDULERS) + c12.deep_configs(tier) + batch_configs(tier, seed, 40, 1600, 12 if tier == "quick" else 25, OPTS, SCHEDULERS)
 
 
@@ -52,15 +52,28 @@ def _make_condval(how, nonblocking):
                         m.d.comb += self.o["branch"].eq(1)
                         v(m, x=self.arg)
 
+            callee, mode = outer, how
+            if how.startswith("via_"):
+                helper = Method(name="helper")
+
+                @def_method(m, helper)
+                def _():
+                    if how == "via_if":
+                        with m.If(self.en):
+                            outer(m)
+                    else:
+                        outer(m, enable_call=self.en)
+
+                callee, mode = helper, "plain"
             with Transaction(name="caller").body(m, ready=self.req):
                 m.d.comb += self.o["caller"].eq(1)
-                if how == "if":
+                if mode == "if":
                     with m.If(self.en):
-                        outer(m)
-                elif how == "enable":
-                    outer(m, enable_call=self.en)
+                        callee(m)
+                elif mode == "enable":
+                    callee(m, enable_call=self.en)
                 else:
-                    outer(m)
+                    callee(m)
             return m
 
     d = D()
